@@ -58,14 +58,14 @@ def glue_safe_ast(ast):
 
 
 def _chunk(arg):
-    seed, idxs = arg
+    seed, idxs, features, label = arg
     cases, meta = [], []
     out = {"cases": 0, "compile_errors": 0, "same": 0, "fails": [], "disagreements": [], "hashes": [], "samples": [], "file_checked": 0}
     d = tempfile.mkdtemp(prefix="verif_c01_")
     try:
         for idx in idxs:
-            r = rng_for(seed, "compile", idx)
-            ast = glue_safe_ast(gen_story.generate(r.randrange(1 << 30), dict(FEATURES)))
+            r = rng_for(seed, "compile", label, idx)
+            ast = glue_safe_ast(gen_story.generate(r.randrange(1 << 30), dict(features)))
             for p in ast["passages"]:
                 annotate(p["items"])
             src = gen_story.print_story(ast)
@@ -84,7 +84,7 @@ def _chunk(arg):
                     o = BardCompiler().compile_file(pth, os.path.join(d, "s.json"))
                 out["file_checked"] += 1
                 if json.load(open(o, encoding="utf-8")) != json.loads(json.dumps(story)):
-                    out["fails"].append({"cls": None, "family": "c01-compile", "what": "compile_file + json.load differs from compile_string", "source": src})
+                    out["fails"].append({"cls": None, "family": label, "what": "compile_file + json.load differs from compile_string", "source": src})
             # the printer separates passages by one empty line: it belongs to the passage before it
             sent = [dict(p, items=p["items"] + ([] if p.get("compact") else [{"k": "blank"}])) for p in ast["passages"]]
             cases.append({"kind": "compile", "id": idx, "ast": {"passages": sent}, "story": story})
@@ -98,9 +98,9 @@ def _chunk(arg):
             if same:
                 out["same"] += 1
                 if not m.get("glue_safe", True):
-                    out["disagreements"].append({"family": "c01-compile", "detail": "generator produced a source outside the glue-safe fragment", "source": src})
+                    out["disagreements"].append({"family": label, "detail": "generator produced a source outside the glue-safe fragment", "source": src})
             else:
-                out["disagreements"].append({"family": "c01-compile", "detail": {k: m.get(k) for k in ("verdict", "passage", "model", "real", "initial", "extra", "detail")}, "source": src})
+                out["disagreements"].append({"family": label, "detail": {k: m.get(k) for k in ("verdict", "passage", "model", "real", "initial", "extra", "detail")}, "source": src})
             if not same or idx % 8 == 0:
                 # the real engine plays the story the real compiler produced and the story the model says it should
                 # produce (whose rendering is the reference meaning, Proofs/C01): any difference is a change of meaning
@@ -125,7 +125,7 @@ def play_both(seed, idx, src, ast, real_story, n_walks=3, n_ops=14):
         other = real_play.play(copy.deepcopy(ms), ops)
         if other != real:
             k = next((i for i, (a, b) in enumerate(zip(real.get("steps", []), other.get("steps", []))) if a != b), None)
-            return {"cls": None, "family": "c01-compile", "source": src, "ops": ops, "step": k,
+            return {"cls": None, "family": "compile-play", "source": src, "ops": ops, "step": k,
                     "what": "the compiled story does not play with the reference meaning of its source: the real engine's observations on the "
                             "real compiler's output differ from those on the reference compilation of the same source"
                             + (f" at call {k}: {json.dumps(real['steps'][k])[:300]} vs {json.dumps(other['steps'][k])[:300]}" if k is not None else
@@ -141,10 +141,12 @@ def _unused():
     return out
 
 
-def compile_family(rep, n, nproc=16):
+def compile_family(rep, n, nproc=16, features=None, label="c01-compile"):
+    """features: generator features (default: the C01 mix); label: family name in the evidence"""
+    features = dict(FEATURES, **(features or {}))
     chunk = max(1, n // (nproc * 2))
     idxs = list(range(n))
-    outs = framework.pmap(_chunk, [(rep.seed, idxs[i:i + chunk]) for i in range(0, n, chunk)], nproc)
+    outs = framework.pmap(_chunk, [(rep.seed, idxs[i:i + chunk], features, label) for i in range(0, n, chunk)], nproc)
     tot = {"cases": 0, "compile_errors": 0, "same": 0, "file_checked": 0}
     hashes = set()
     for o in outs:
@@ -156,11 +158,11 @@ def compile_family(rep, n, nproc=16):
         if len(rep.samples) < 2:
             rep.samples.extend(o["samples"][:1])
     if tot["compile_errors"] > 0.1 * max(1, n):
-        rep.infra_errors.append(f"c01-compile: {tot['compile_errors']} of {n} generated sources do not compile")
+        rep.infra_errors.append(f"{label}: {tot['compile_errors']} of {n} generated sources do not compile")
     cov = rep.coverage
     cov["evaluations"] = cov.get("evaluations", 0) + tot["cases"]
     cov["programs"] = cov.get("programs", 0) + tot["cases"]
     cov["traces_validated_against_impl"] = cov.get("traces_validated_against_impl", 0) + tot["same"]
     cov["distinct_nontrivial"] = cov.get("distinct_nontrivial", 0) + len(hashes)
-    cov.setdefault("families", {})["c01-compile"] = tot
+    cov.setdefault("families", {})[label] = tot
     return tot
